@@ -16,6 +16,7 @@ mod c20;
 mod c16;
 mod c06;
 mod c13;
+mod c13typed;
 mod c08;
 mod c07;
 
